@@ -198,8 +198,12 @@ def func_fit(x, y, ncoeff, invvar=None, function_name='legendre', ia=None,
     #
     igood = (invvar > 0).nonzero()[0]
     ngood = len(igood)
-    res = np.zeros((ncoeff,), dtype=x.dtype)
-    yfit = np.zeros(x.shape, dtype=x.dtype)
+    #
+    # Integer abscissae (e.g. pixel indexes) still give floating point results.
+    #
+    dt = x.dtype if np.issubdtype(x.dtype, np.inexact) else np.float64
+    res = np.zeros((ncoeff,), dtype=dt)
+    yfit = np.zeros(x.shape, dtype=dt)
     if ngood == 0:
         pass
     elif ngood == 1:
